@@ -11,7 +11,7 @@ from datetime import datetime
 import z3
 
 from . import loader
-from .common import Report
+from .common import Report, guarded, merge_part
 from .db import db
 from .explorer import explore, prove, satisfiable, Unsupported, EX
 from .proxies import SymInt, SymBytes, truth
@@ -46,6 +46,7 @@ def make_frames(name, n, seq):
     return pay, frames
 
 
+@guarded
 def _b_worker(job):
     from . import explorer
     explorer.STATS.__init__()
@@ -208,6 +209,7 @@ def wit(m, pa, job, cs, msgs, final, ypay, events=None):
             "counters": [m.eval(c, True).as_long() if m is not None else 0 for c in cs]}
 
 
+@guarded
 def _s_worker(_):
     """(S) symbolic stream identities"""
     from . import explorer
